@@ -208,6 +208,20 @@ pub fn run_memory(ctx: &Ctx, which: &str) {
             let run = run_mem(&svc, &reqs, d);
             if which == "C01" {
                 judge_c01(ctx, &reqs, d, &run, "memory");
+                // the same requests written differently (member order, blanks and line ends
+                // between tokens, \\u escapes): a request is its JSON value, not its spelling
+                let canon = seq_bytes(&reqs);
+                let other = respell_stream(&canon, &mut rng);
+                let a = run_whole(&svc, &canon, None);
+                let b = run_whole(&svc, &other, None);
+                ctx.count("respelled_streams_compared", 1);
+                if canon_frames(&a.out) != canon_frames(&b.out) || a.closed.is_some() != b.closed.is_some() {
+                    ctx.violation(
+                        "c01:respelled-requests-answered-differently",
+                        json!({"engine": "c01-respell", "request_kinds": reqs.iter().map(|r| r.describe()).collect::<Vec<_>>(), "canonical_stream": show(&canon), "respelled_stream": show(&other), "respelled_hex": hex(&other),
+                               "replies_canonical": show(&a.out), "replies_respelled": show(&b.out), "closed": [a.closed.clone(), b.closed.clone()], "message": "the same JSON values in another spelling drew different replies"}),
+                    );
+                }
             } else {
                 let run = run_mem(&svc, &reqs, len);
                 judge_c04(ctx, &svc, &reqs, len, &run, "memory");
